@@ -79,7 +79,11 @@ Judge(e) ==
     [] e.op = "cstr" ->
          IF e.fail_at >= 0 THEN Verdict(<< <<e.res.ok = 0 /\ e.res.err # "panic", "cstr">> >>, [ok |-> 0, err |-> "an error (CollectStr today)"])
          ELSE LET b == Enc([k |-> "str"], ConcatAll(e.pieces)) \o <<e.follow>> IN
-              Verdict(<< <<e.res.ok = 1 /\ Has(e.res, "bytes") /\ e.res.bytes = b, "cstr">> >>, [ok |-> 1, bytes |-> b])
+              Verdict(<< <<e.res.ok = 1 /\ Has(e.res, "bytes") /\ e.res.bytes = b, "cstr">>,
+                         \* C01: a Display-collected string is a str of the data model; it comes back whole, then the next field
+                         <<e.res.ok = 1 => (Has(e.res, "back") /\ e.res.back.ok = 1 /\ e.res.back.s = ConcatAll(e.pieces)
+                                            /\ e.res.back.f = e.follow /\ e.res.back.rest = 0), "rt">> >>,
+                      [ok |-> 1, bytes |-> b, back |-> [s |-> ConcatAll(e.pieces), f |-> e.follow, rest |-> 0]])
     [] e.op = "refused" ->
          Verdict(<< <<e.res.ok = 0 /\ Has(e.res, "err") /\ e.res.err # "panic", "refused">> >>, [ok |-> 0, err |-> "an error (WontImplement today)"])
     [] OTHER -> Verdict(<< <<FALSE, "crash">> >>, "no action of the specification matches this event")
